@@ -444,10 +444,18 @@ func (c *fnCtx) roots(x ast.Expr, depth int) map[types.Object]int {
 			if _, isB := c.info.Uses[id].(*types.Builtin); isB {
 				if id.Name == "append" && len(v.Args) > 0 {
 					add(c.roots(v.Args[0], depth+1), 0)
-					for _, a := range v.Args[1:] {
-						if tv, ok := c.info.Types[a]; ok && refKind(tv.Type) {
-							add(c.roots(a, depth+1), 1)
+					for i, a := range v.Args[1:] {
+						tv, ok := c.info.Types[a]
+						if !ok || !refKind(tv.Type) {
+							continue
 						}
+						// append(x, y...) copies the elements of y: only reference-kind elements carry an alias
+						if v.Ellipsis.IsValid() && i == len(v.Args)-2 {
+							if sl, isSlice := tv.Type.Underlying().(*types.Slice); isSlice && !refKind(sl.Elem()) {
+								continue
+							}
+						}
+						add(c.roots(a, depth+1), 1)
 					}
 				}
 				return res
